@@ -294,6 +294,8 @@ func Run(r *ev.Run) {
 	want -= r.Counter("inputs_abandoned_after_repeated_stops")
 	r.RequireAtLeast("inputs_total", want*9/10)
 
+	rewriterLayer(r, sel) // rewriters.go: query rewriters of both proxies over the C13 statement workload
+
 	if HandlerLayer != nil && sel == "" {
 		HandlerLayer(r)
 	}
